@@ -46,13 +46,13 @@ func formed(a *net.UDPAddr, four bool) *net.UDPAddr {
 }
 
 type ncase struct {
-	Mode     int      `json:"mode"` // 0 NAPT, 1 1:1
-	MapB     int      `json:"map"`
-	FilB     int      `json:"filter"`
-	LifeNs   int64    `json:"life_ns"` // 0 = default (30s)
-	Mapped   []string `json:"mapped"`
-	Local    []string `json:"local,omitempty"`
-	Steps    []step   `json:"steps"`
+	Mode   int      `json:"mode"` // 0 NAPT, 1 1:1
+	MapB   int      `json:"map"`
+	FilB   int      `json:"filter"`
+	LifeNs int64    `json:"life_ns"` // 0 = default (30s)
+	Mapped []string `json:"mapped"`
+	Local  []string `json:"local,omitempty"`
+	Steps  []step   `json:"steps"`
 }
 
 type mmap struct {
@@ -523,6 +523,7 @@ func main() {
 	nshard := flag.Int("nshard", 1, "")
 	out := flag.String("out", "", "")
 	replay := flag.String("replay", "", "")
+	mode := flag.String("mode", "seq", "seq: sequential histories against the reference NAT; conc: concurrent phases with sequential audits")
 	flag.Parse()
 	_ = nshard
 	r := res.New(*prop)
@@ -550,6 +551,50 @@ func main() {
 		r.Eval(1)
 		if v := runCase(&w.Witness, r); v != nil {
 			report(v, &w.Witness)
+		}
+		r.Write(*out)
+		return
+	}
+	if *mode == "conc" {
+		r.Rule = "rounds of sequential set-up, clock advance ({0, L/3, L+1, 2L}), a concurrent phase at a fixed virtual time (3-5 goroutines translating outbound datagrams of 3 endpoints x 3 remotes and inbound datagrams to the addresses the mappings had before the phase, from their remotes and from a stranger) and a sequential audit, for all 3x3 behaviours: all outbound datagrams of one mapping key show one external address during the phase and in the audit (the old one if the mapping was live, one new one if it had expired), live mappings of different keys hold different addresses, the contacted remote is admitted to the owner and a stranger is not; distinct = (behaviours, advance) cells"
+		r.Assumptions = []string{"the virtual clock stands still during a concurrent phase, so every mapping is live or expired for the whole phase and the expected answers do not depend on the interleaving"}
+		nc := 60
+		if *tier == "thorough" {
+			nc = 600
+		}
+		crng := rand.New(rand.NewSource(*seed*911 + int64(*shard)*37 + 5))
+		if *replay != "" {
+			b, _ := os.ReadFile(*replay)
+			var w struct {
+				Witness concCase `json:"witness"`
+			}
+			if err := json.Unmarshal(b, &w); err != nil {
+				fmt.Fprintln(os.Stderr, err)
+				os.Exit(2)
+			}
+			for k := 0; k < 50 && r.NViol() == 0; k++ { // the interleaving is not controlled: retry
+				r.Eval(1)
+				if v := runConc(&w.Witness, *prop, r); v != nil && v.prop == *prop {
+					r.Violate(v.key, v.desc, &w.Witness)
+				}
+			}
+			r.Write(*out)
+			return
+		}
+		seenK := map[string]int{}
+		for i := 0; i < nc; i++ {
+			c := &concCase{MapB: i % 3, FilB: (i / 3) % 3, Rounds: 12, Seed: crng.Int63()}
+			r.Eval(1)
+			if v := runConc(c, *prop, r); v != nil {
+				if v.prop != *prop {
+					r.Count("other_property_disagreements", 1)
+					continue
+				}
+				seenK[v.key]++
+				if seenK[v.key] <= 2 {
+					r.Violate(v.key, v.desc, c)
+				}
+			}
 		}
 		r.Write(*out)
 		return
